@@ -9,6 +9,7 @@ from .source import Repo
 from . import solve
 
 _repo = None
+CFG_OVERRIDE = None      # configuration sweep (C18): storage units other than the shipped ones
 
 
 def repo():
@@ -48,6 +49,8 @@ def explore(body, contracts=None, cfg=None, max_paths=400, setup=None):
     Returns a list of (I, result_or_Outcome)."""
     pending = [[]]
     out = []
+    if cfg is None and CFG_OVERRIDE is not None:
+        cfg = CFG_OVERRIDE
     while pending:
         sched = pending.pop()
         I = Interp(repo(), sched, contracts=contracts, cfg=cfg)
